@@ -172,6 +172,9 @@ def build(name, env, cfg):
             _scale_params(policy, cfg["policy_scale"])
         popt = _opt(policy, lr) if policy is not st.policy or cfg.get("policy_scale") is not None else st.policy_optimizer
         pt, qt = nnx.clone(policy), nnx.clone(st.q)
+        if cfg.get("target_scale") is not None:  # handed-in targets that differ from the online networks
+            _scale_params(pt, cfg["target_scale"])
+            _scale_params(qt, cfg["target_scale"])
         mods = dict(policy=policy, policy_optimizer=popt, q=st.q, q_optimizer=st.q_optimizer, policy_target=pt, q_target=qt)
         f = {"ddpg": train_ddpg, "td3": train_td3, "td3_lap": train_td3_lap}[name]
 
